@@ -64,7 +64,8 @@ def eval_log_cases(ctx, cases, tag, shard=40):
     for s in range(0, len(cases), shard):
         part = cases[s:s + shard]
         txt = "From LB Require Import Base.Prelude Log.Model Log.Retention Log.Check.\nOpen Scope Z_scope.\n"
-        txt += "Definition CS : list lcase := [\n %s].\n" % ";\n ".join(c_case(c) for c in part)
+        sentinel = "{| lc_maxb := 100; lc_cc := false; lc_lim := mkLimits 0 0 0; lc_ops := [LState 12345 0 0] |}"
+        txt += "Definition CS : list lcase := [\n %s].\n" % ";\n ".join([c_case(c) for c in part] + [sentinel])
         txt += "Definition M := Eval vm_compute in lcases_mismatches CS 0.\nPrint M.\n"
         jobs.append((("cases_%s_%d" % (tag, len(jobs)), txt), part))
     outs = ctx.coq_eval_many([j[0] for j in jobs], jobs=12)
@@ -76,6 +77,10 @@ def eval_log_cases(ctx, cases, tag, shard=40):
         if not m:
             ctx.tie_problems.append({"what": "could not parse the model's answer", "detail": out[-500:]})
             continue
-        for a, b in re.findall(r"\((\d+),\s*(\d+)\)", m.group(1)):
-            mism.append((part[int(a)], int(b)))
+        pairs = [(int(a), int(b)) for a, b in re.findall(r"\(\s*(\d+)(?:%nat)?\s*,\s*(\d+)(?:%nat)?\s*\)", m.group(1))]
+        if (len(part), 0) not in pairs:
+            ctx.tie_problems.append({"what": "the model evaluation did not report the sentinel mismatch: its answer cannot be trusted", "detail": out[-300:]})
+        for a, b in pairs:
+            if a < len(part):
+                mism.append((part[a], b))
     return mism, len(jobs)
